@@ -257,18 +257,20 @@ pub fn circuit_bootstrap_core<R, L, D, M, BRA: BlindRotationAlgo, BE: Backend>(
 
     let alpha: usize = dnum_res.next_power_of_two();
 
-    // Validate that LUT coefficient exponents fit in i64 before building the LUT.
-    // The maximum exponent is res_base2k * (dnum_res - 1); 1i64 << that value must not overflow.
+    // Validate that the LUT coefficients fit in i64 before building the LUT.  The largest one is
+    // 1 << (res_base2k * (dnum_res - 1)) in exponent mode and (2^log_domain - 1) << (res_base2k * (dnum_res - 1)) in
+    // constant mode; lookup_table_set then scales it by 2^(base2k_brk - k % base2k_brk) when k = res_base2k * dnum_res
+    // is not a multiple of the table's radix.
+    let lut_k: usize = res_base2k * dnum_res;
+    let lut_base2k: usize = key.brk.base2k().as_usize();
+    let lut_scale_bits: usize = if lut_k.is_multiple_of(lut_base2k) { 0 } else { lut_base2k - lut_k % lut_base2k };
+    let coeff_bits: usize = res_base2k * dnum_res.saturating_sub(1) + lut_scale_bits + if to_exponent { 0 } else { log_domain };
     assert!(
-        dnum_res == 0 || res_base2k * (dnum_res - 1) < i64::BITS as usize,
-        "LUT coefficient overflow: res_base2k={res_base2k} * (dnum_res-1)={} >= {} bits",
+        coeff_bits < i64::BITS as usize - 1,
+        "LUT coefficient overflow: res_base2k={res_base2k} * (dnum_res-1)={} + scaling={lut_scale_bits} + log_domain={} >= {} bits",
         dnum_res.saturating_sub(1),
-        i64::BITS,
-    );
-    // For the constant-mode LUT the coefficient also scales by j < 2^log_domain.
-    assert!(
-        !to_exponent || log_domain + res_base2k * dnum_res.saturating_sub(1) < i64::BITS as usize,
-        "LUT coefficient overflow: log_domain={log_domain} + res_base2k*dnum_res would exceed i64"
+        if to_exponent { 0 } else { log_domain },
+        i64::BITS - 1,
     );
 
     let mut f: Vec<i64> = vec![0i64; (1 << log_domain) * alpha];
